@@ -40,14 +40,21 @@ static void atexit_cb(void *ud) {
     cb_n[i]++;
 }
 
+static aws_thread_once body_once = AWS_THREAD_ONCE_STATIC_INIT;
+static void body_once_fn(void *ud) { (void)ud; }
 static void body(void *arg) {
     struct targ *t = (struct targ *)arg;
     int i = t->idx;
     ran[i]++;
     ran_tid[i] = vs_current_tid();
     ran_argok[i] = t->magic == 0x5150 + i;
-    for (int k = 0; k < n_atexit[i]; ++k)
+    for (int k = 0; k < n_atexit[i]; ++k) {
         if (aws_thread_current_at_exit(atexit_cb, (void *)(intptr_t)(i * 10 + k))) vs_fail("at-exit-register", "aws_thread_current_at_exit failed on thread %d", i);
+        /* between two registrations the thread uses another service of the thread module (a call-once, as aws_device_random
+         * does internally): the thread stays the thread it is (added after a seeded change in which aws_thread_call_once
+         * reset the calling thread's own bookkeeping pointer, so that later registrations were refused) */
+        if (k == 0) aws_thread_call_once(&body_once, body_once_fn, NULL);
+    }
     if (launches_inner && i == 0) {
         if (aws_thread_launch(&thr[1], body, &targs[1], &managed)) vs_fail("launch", "nested managed launch failed");
     }
